@@ -168,7 +168,9 @@ void _ZNK11QStringView8toStringEv(char *ret, char *self) { uint64_t n = *(uint64
      which symex folds neither the offset nor the kind of the source). The copy claims a content id; that this is legitimate (source is
      literal data, or a whole model block that has an id itself, or <= 3 units) is an obligation for the SOLVER, not a symex branch. */
   uint8_t isblk = off == QS_OFF;
+#ifdef __CPROVER__   /* natively literal-ness of a pointer is unknown: the copy then carries no id (see below) and is compared unit by unit */
   ASSERT(n <= 3 || off == 0 || off == 24 || (isblk && QSBLK(p)->exact && QSBLK(p)->h.f1 == n), "C02 env: toString() of a view whose content has no content id / partial view");
+#endif
   QAD *c = c02_copy16(p, (uint32_t)n, 1); struct qs *q = (struct qs*)c;
   /* ghost fields of a block source (abstract number, base64 tag) travel with the copy */
   q->isnum = isblk ? QSBLK(p)->isnum : 0; q->neg = isblk ? QSBLK(p)->neg : 0; q->mag = isblk ? QSBLK(p)->mag : 0; q->b64 = isblk ? QSBLK(p)->b64 : (QAD*)0;
@@ -257,3 +259,7 @@ void _ZNK12QXmppElement5toXmlEP16QXmlStreamWriter(char *self, char *w) { struct 
     for (uint32_t j = 0; j < DOM_MAXCH; j++) { if (j >= c->nch) break; struct dnode *g = c->ch[j]; ASSERT(g->nch == 0, "C02 env: QXmppElement copy deeper than 3 levels"); c02_emit(x, g, c->ns); x->depth--; }
     x->depth--; }
   x->depth--; }
+/* QXmpp::Private::parseHostAddress (QXmppUtils.cpp; wraps QUrl, Qt): cut - arbitrary host (0..3 units) and port */
+void _ZN5QXmpp7Private16parseHostAddressERK7QString(char *ret, char *addr) { uint32_t port = vp_u32(); uint32_t len = vp_u32(); uint16_t c0 = vp_u16(), c1 = vp_u16(), c2 = vp_u16(); ASSUME(len <= 3);
+  QAD *d = qs_new(len, 3); struct qs *q = (struct qs*)d; REF(d) = (uint32_t)-1; q->data[0] = c0; q->data[1] = c1; q->data[2] = c2; q->exact = 1; q->sid = SID_PACK(q->data, len);
+  *(QAD**)ret = d; *(uint32_t*)(ret + 8) = len == 0 ? (uint32_t)-1 : port; }
